@@ -91,7 +91,8 @@ class Run:
         if not out_json:
             return o
         try:
-            return json.loads(o.strip().splitlines()[-1])
+            # (the statistics object is the last line; a coverage-instrumented binary may print warnings after it)
+            return json.loads([l for l in o.strip().splitlines() if l.startswith("{")][-1])
         except Exception:
             raise Infra("harness output not understood: " + o[-1000:])
 
